@@ -34,8 +34,8 @@ KDIjepaMaskCollator = _ijepa_mod.KDIjepaMaskCollator
 
 LEVEL = "exploration"
 RULE = ("alternating DINO / I-JEPA configurations: grids 3..24 (square and non-square), batch sizes 1..8 (B=1 boosted), "
-        "DINO: views 1..3 (x as one tensor, as a list of exactly the configured views, or as a multi-crop list with 1..8 extra local crops of another spatial size), mask_prob from {0, 1, k/(B*views), random}, ratio ranges from {scalar, lo=0, hi=1, k/(H*W) ends, "
-        "random}, min_num_patches 1..8, aspect ranges, histories of 1..4 calls on one collator object with constant / shrinking (last partial batch) / growing / there-and-back / arbitrary batch sizes and every clause applied to every call; reconfiguration histories (public attributes reassigned between calls, clauses judged against the configuration in force at each call, I-JEPA third collator built with the final configuration); I-JEPA: scalar and (h, w) patch sizes with h != w on square and non-square grids / inputs, encoder/predictor scale ranges, aspect ranges, "
+        "DINO: budget-boundary triples (batch up to 64, views up to 5, prob with B*views*prob within 1e-9 of an integer and float associations that disagree, incl. (30,3,.7) (60,3,.35) (50,3,.82) (18,5,.7)) on small grids; views 1..3 (x as one tensor, as a list of exactly the configured views, or as a multi-crop list with 1..8 extra local crops of another spatial size), mask_prob from {0, 1, k/(B*views), random}, ratio ranges from {scalar, lo=0, hi=1, k/(H*W) ends, "
+        "random}, min_num_patches 1..8, aspect ranges, histories of 1..4 calls on one collator object with constant / shrinking (last partial batch) / growing / there-and-back / arbitrary batch sizes and every clause applied to every call; reconfiguration histories (public attributes reassigned between calls, clauses judged against the configuration in force at each call, I-JEPA third collator built with the final configuration); I-JEPA: input sizes with remainders 0..patch-1 per axis (below / above half a patch; grid = floor(input / patch)), scalar and (h, w) patch sizes with h != w on square and non-square grids / inputs, encoder/predictor scale ranges, aspect ranges, "
         "1..3 encoder and 1..4 predictor masks, min_keep from {0, largest admissible, random}, tries 1..20, classes "
         "{in-domain, relaxation-prone, one-patch predictor block, empty predictor block (encoder size becomes decodable), "
         "library defaults}, three collators per case (different rng seeds, batch sizes, global RNG states; the third is "
@@ -53,14 +53,16 @@ ASSUMPTIONS = [
     "its scale range, predictor upper bound from the upper end of its scale range and the worse end of its aspect range; if an "
     "observed predictor rectangle exceeds the model the case is not judged for disjointness",
     "min_keep is only driven below the model's smallest encoder block (otherwise no mask can ever have more than min_keep patches; the reference implementation loops forever there as well)",
-    "input sizes are exact multiples of the patch size per axis (patch sizes are scalars or (height, width) pairs, the grid is input // patch per axis); KDDinoMaskCollator takes the grid itself (mask_size), no patch size; at least one encoder and one predictor mask",
+    "the I-JEPA grid is floor(input / patch) per axis (what the unchanged tree computes; patch sizes are scalars or (height, width) pairs), input sizes are driven with remainders 0 .. patch-1 per axis; KDDinoMaskCollator takes the grid itself (mask_size), no patch size; at least one encoder and one predictor mask",
     "predictor scales so small that the block has zero area are treated as legal configurations (int(H*W*scale) == 0)",
-    "DINO: the floor / ceil bounds are accepted in float64, float32 and exact rational arithmetic (they differ only when the product is within rounding of an integer)",
+    "DINO: the non-empty budget floor(B*views*p) is evaluated in exact rational arithmetic on the double value of mask_prob, and the value of the documented "
+    "float expression int(batch*views*prob) is accepted as well where it differs; the decimal-literal reading of mask_prob (0.7 = 7/10) is NOT accepted "
+    "(it is one more on triples such as (30, 3, 0.7)); the ceil bound of the mask ratio is accepted in float64, float32 and exact rational arithmetic",
     "DINO: which samples get the non-empty masks and lower bounds on mask sizes are not claimed by the property",
     "encoder block size is only observable when the predictor blocks are empty; otherwise the step-only clause is judged on predictor sizes",
     "the ambient-contract layer of DESIGN 1.5 (contracts while the pinned suite runs) is replaced by replaying the two pinned test configurations under the same oracle",
 ]
-MONITORS = ["dino_calls_after_reconfiguration", "ijepa_calls_after_reconfiguration", "ijepa_cases_with_nonsquare_patch", "dino_multicrop_calls", "dino_calls_after_batch_size_change", "ijepa_calls_after_batch_size_change", "dino_calls_checked", "dino_nonempty_masks_seen", "ijepa_calls_checked", "ijepa_pred_rectangles_decoded",
+MONITORS = ["ijepa_cases_with_remainder_above_half_patch", "dino_budget_boundary_calls", "dino_calls_after_reconfiguration", "ijepa_calls_after_reconfiguration", "ijepa_cases_with_nonsquare_patch", "dino_multicrop_calls", "dino_calls_after_batch_size_change", "ijepa_calls_after_batch_size_change", "dino_calls_checked", "dino_nonempty_masks_seen", "ijepa_calls_checked", "ijepa_pred_rectangles_decoded",
             "ijepa_disjointness_checked_in_domain", "ijepa_step_size_differential_checked", "ijepa_encoder_size_decoded",
             "batch_passthrough_checked", "step_budget_runs"]
 
@@ -141,7 +143,37 @@ def _frac(rng, n):
     return round(rng.random(), rng.choice([2, 3, 16]))
 
 
+BOUNDARY_TRIPLES = [(30, 3, 0.7), (60, 3, 0.35), (50, 3, 0.82), (18, 5, 0.7)]
+
+
+def _boundary_triple(rng):
+    """(batch, views, prob) where batch*views*prob is within 1e-9 of an integer without being computed as one in every
+    association, i.e. where int((b*p)*v), int(b*(p*v)), int((b*v)*p) or the exact floor disagree"""
+    for _ in range(300):
+        b, v = rng.randint(2, 64), rng.randint(1, 5)
+        p = rng.choice([rng.randint(1, 99) / 100, rng.randint(1, 999) / 1000, rng.randint(1, b * v) / (b * v)])
+        vals = {int((b * p) * v), int(b * (p * v)), int((b * v) * p), int(math.floor(Fraction(p) * b * v))}
+        if len(vals) > 1 and abs(b * v * p - round(b * v * p)) < 1e-9:
+            return b, v, p
+    return rng.choice(BOUNDARY_TRIPLES)
+
+
+def _gen_dino_boundary(rng):
+    b, v, p = rng.choice(BOUNDARY_TRIPLES) if rng.random() < 0.4 else _boundary_triple(rng)
+    g = rng.choice([4, 5, 6])
+    lo = rng.choice([0.3, 0.4, 0.5])
+    # small grid, ratios well above 1/cells: every budgeted mask gets at least one cell, so the count attains the budget
+    return {"kind": "dino", "H": g, "W": g, "B": [b] * rng.choice([1, 2]), "views": v, "p": p, "ratio": [lo, lo + 0.2],
+            "min_num_patches": rng.choice([1, 2, 4]), "min_aspect": 0.3, "max_aspect": None, "mode": rng.choice(MODES),
+            "x_form": rng.choice(["list", "tensor"]), "ctx_tags": False, "return_ctx": True, "calls": 0, "boundary": True,
+            "extra_views": 0, "extra_size": 1, "seed": rng.randrange(2 ** 31), "g": rng.randrange(2 ** 31)}
+
+
 def _gen_dino(rng, quick):
+    if rng.random() < 0.08:
+        spec = _gen_dino_boundary(rng)
+        spec["calls"] = len(spec["B"])
+        return spec
     H, W = _grid(rng, quick)
     cells = H * W
     calls = rng.choice([1, 2, 3, 3, 4])
@@ -287,8 +319,9 @@ def _gen_ijepa(rng, quick):
         if spec is None:
             continue
         steps = rng.choice([1, 2, 3, 3, 4])
+        patch = _patch(rng, H, W)
         spec.update(
-            patch=_patch(rng, H, W),
+            patch=patch, rem=[_rem(rng, q) for q in (patch if isinstance(patch, list) else (patch, patch))],
             B=[_history(rng, cells, steps), _history(rng, cells, steps), rng.choice([1, 2, 3])], steps=steps,
             mode=rng.choice(MODES), ctx_tags=rng.random() < 0.5, return_ctx=rng.random() < 0.95,
             seeds=[rng.randrange(2 ** 31) for _ in range(3)], g=[rng.randrange(2 ** 31) for _ in range(3)],
@@ -321,6 +354,14 @@ def _patch(rng, H, W):
         g = math.gcd(H, W)
         return [W // g, H // g]  # non-square grid, non-square patches, SQUARE input
     return rng.choice([[1, 2], [2, 1], [8, 16], [16, 8], [2, 3], [3, 2], [4, 1], [16, 14]])
+
+
+def _rem(rng, q):
+    """input size = grid * patch + remainder, 0 <= remainder < patch: exact multiple, below / exactly / above half a patch,
+    one pixel short of the next patch"""
+    if q < 2 or rng.random() < 0.45:
+        return 0
+    return rng.choice([1, max(1, q // 2 - 1), q // 2, min(q - 1, q // 2 + 1), q - 1, q - 1])
 
 
 def _pinned(quick):
@@ -426,6 +467,12 @@ def _call(run, coll, spec, B, dino, limit, what):
 
 
 # ------------------------------------------------------------------------------------------------- DINO
+def _max_nonempty(B, views, p):
+    """floor(B*views*p): exact rational arithmetic on the value mask_prob really has (a double), and what the documented
+    float expression int(batch*views*prob) gives where the two differ"""
+    return max(int(math.floor(Fraction(p) * (B * views))), int(B * views * p))
+
+
 def _int_bounds(p, n, up):
     vals = [p * n, float(np.float32(p) * np.float32(n)), Fraction(p) * n, Fraction(repr(float(p))) * n]
     return max(int(math.ceil(v)) if up else int(math.floor(v)) for v in vals)
@@ -477,7 +524,9 @@ def _run_dino(run, spec):
         if any(int(k) <= c for k in reconf):
             run.count("dino_calls_after_reconfiguration")
         n = B * views
-        max_nonempty = _int_bounds(p, n, up=False)
+        max_nonempty = _max_nonempty(B, views, p)
+        if spec.get("boundary"):
+            run.count("dino_budget_boundary_calls")
         max_cells = _int_bounds(rmax, cells, up=True)
         # logical step budget: at most T blocks per mask (each adds >= 1 cell), a block iterates over at most
         # ~2.5*max(remaining, min_num_patches) cells and is found within 10 attempts
@@ -624,7 +673,14 @@ def _run_ijepa(run, spec):
     # the grid the masks are judged on is (H, W) of the spec; input and patch size are derived from it independently of
     # the collator: input = grid * patch per axis
     ph, pw = patch if isinstance(patch, list) else (patch, patch)
-    size = H * ph if spec["size_form"] == "int" and H * ph == W * pw else (H * ph, W * pw)
+    rh, rw = spec.get("rem", [0, 0])  # the grid is floor(input / patch) per axis: a remainder below one patch is cut off
+    ih, iw = H * ph + rh, W * pw + rw
+    assert (ih // ph, iw // pw) == (H, W) and 0 <= rh < ph and 0 <= rw < pw
+    if rh or rw:
+        run.count("ijepa_cases_with_input_remainder")
+    if 2 * rh > ph or 2 * rw > pw:
+        run.count("ijepa_cases_with_remainder_above_half_patch")
+    size = ih if spec["size_form"] == "int" and ih == iw else (ih, iw)
     patch = tuple(patch) if isinstance(patch, list) else patch
     if ph != pw:
         run.count("ijepa_cases_with_nonsquare_patch")
@@ -634,7 +690,7 @@ def _run_ijepa(run, spec):
     base = f"KDIjepaMaskCollator({kw})"
     mk_cls = "mk0" if spec["min_keep"] == 0 else "mkmax" if enc_lb - n_pred * pred_ub - 1 == spec["min_keep"] else "mk"
     run.cover("ijepa", "+".join(sorted({a for ch in (spec.get("reconf") or {}).values() for a in ch})) or "fixed-config", spec["cls"], in_domain, "sq" if H == W else "rect", "patch-sq" if ph == pw else "patch-tall" if ph > pw else "patch-wide",
-              "input-sq" if H * ph == W * pw else "input-rect", "3" if min(H, W) == 3 else "g", n_enc, n_pred, mk_cls,
+              "input-sq" if ih == iw else "input-rect", "rem0" if not (rh or rw) else "rem>half" if (2 * rh > ph or 2 * rw > pw) else "rem<=half", "3" if min(H, W) == 3 else "g", n_enc, n_pred, mk_cls,
               "B1" if 1 in _as_history(spec["B"][0], spec["steps"]) else "B>1", _hist_class(_as_history(spec["B"][0], spec["steps"])),
               spec["return_ctx"])
 
